@@ -54,9 +54,9 @@ def decode_c20(fdp):
         opt = lambda: (None if fdp.ConsumeBool() else fdp.ConsumeIntInRange(-6, 6))
         ix = {'t': 'slice', 'a': opt(), 'b': opt(), 'c': [None, 1, 2, -1, -2, 3][fdp.ConsumeIntInRange(0, 5)]}
     elif t == 2:
-        ix = {'t': 'mask', 'bits': [fdp.ConsumeBool() for _ in range(fdp.ConsumeIntInRange(1, 6))]}
+        ix = {'t': 'mask', 'bits': [fdp.ConsumeBool() for _ in range(fdp.ConsumeIntInRange(1, 6))], 'form': fdp.ConsumeIntInRange(0, 2)}
     else:
-        ix = {'t': 'index', 'idx': [fdp.ConsumeIntInRange(0, 20) for _ in range(fdp.ConsumeIntInRange(0, 6))]}
+        ix = {'t': 'index', 'idx': [fdp.ConsumeIntInRange(0, 20) for _ in range(fdp.ConsumeIntInRange(0, 6))], 'form': fdp.ConsumeIntInRange(0, 2)}
     return 'list', {'be': 'np', 'ops': ops, 'how': how, 'index': ix}
 
 
